@@ -32,6 +32,7 @@ type session struct {
 	srcs    []map[string]any
 	res     *confmap.Resolver
 	handles []*handle
+	saved   map[string]*string // the environment as it was (nil = unset), restored at shutdown
 	// extraEnv: variables additionally set (metamorphic variant: unset-with-default -> set to the default)
 	extraEnv map[string]string
 }
@@ -43,9 +44,28 @@ func (ss *session) track(uri string, w confmap.WatcherFunc) confmap.RetrievedOpt
 }
 
 func newSession(s *XScript) (*session, error) {
-	ss := &session{s: s, table: map[string]string{}, srcs: s.sourceMaps()}
+	ss := &session{s: s, table: map[string]string{}, srcs: s.sourceMaps(), saved: map[string]*string{}}
 	for _, e := range s.Table {
 		ss.table[e.Key] = renderVal(e.Val)
+	}
+	// environment hygiene: remember what every variable the case mentions was before
+	remember := func(n string) {
+		if _, done := ss.saved[n]; done {
+			return
+		}
+		if v, ok := os.LookupEnv(n); ok {
+			ss.saved[n] = &v
+		} else {
+			ss.saved[n] = nil
+		}
+	}
+	for _, n := range s.EnvUnset {
+		remember(n)
+	}
+	for k := range ss.table {
+		if strings.HasPrefix(k, "env:") {
+			remember(strings.TrimPrefix(k, "env:"))
+		}
 	}
 	facs := []confmap.ProviderFactory{factoryW("src", func(uri string, w confmap.WatcherFunc) (*confmap.Retrieved, error) {
 		var i int
@@ -247,6 +267,11 @@ func (ss *session) shutdown() {
 	ss.clearEnv()
 	for n := range ss.extraEnv {
 		_ = os.Unsetenv(n)
+	}
+	for n, v := range ss.saved {
+		if v != nil {
+			_ = os.Setenv(n, *v)
+		}
 	}
 }
 
